@@ -24,7 +24,13 @@ plumpy side, mirrored function by function:
 
 * `Process._process_scope`  → `Op.push p` / `Op.pop p` (the `assert Process.current() is self` is `Err.scopeAssertion`)
 * `Process._run_task(fn)`   → `runTask p body`  (`with self._process_scope(): await fn()`; the `with` also pops when `fn` raises)
-* `Process.call_soon(cb)`   → `Op.callSoon p cb`: a new task running `ProcessCallback.run` = `_run_task(cb)`
+* `Process.call_soon(cb)`   → `Op.callSoon p cb`: a new task running `ProcessCallback.run` = `_run_task(cb)`; called on
+  **another** process — the creator of the process whose code is running, `creator.call_soon(cb)` → `Op.callSoonCreator p cb`:
+  the new task copies the context of the *calling* code (stack: …, creator, …, p), its scope pushes the creator again
+* `ProcessCallback.run`     → `cbOps` / `cbOpsExc`: `try: await process._run_task(cb)` / `except Exception:
+  process.callback_excepted(..)`: when the callback raises, the scope is left through the exception (`Exit.exception`) and
+  the public hook `callback_excepted` runs **after** the scope, in the callback's task (`Op.excepted`).  The generated
+  classes override that hook to take a sample and nothing else (the default implementation calls `fail()`: C03's subject).
 * `Process.launch(cls)`     → `Op.launch p cls`: construct (hooks of the constructor run inline), new task `step_until_terminated`
 * `Process.execute()`       → `Op.execute p cls`: construct, new task, nested `run_until_complete`
 * `Process.step`/`step_until_terminated` → `stepperOps`: `_run_task(self._state.execute)` and **after it returned**
@@ -54,10 +60,11 @@ inductive Hook
   | on_wait | on_waiting | on_exit_waiting | on_finish | on_finished | on_except | on_excepted
   | on_kill | on_killed | on_terminated | on_close
   | on_output_emitting | on_output_emitted
+  | callback_excepted   -- called by `ProcessCallback.run` when a scheduled callback raised, after `_run_task` was left
 deriving DecidableEq, Repr, Inhabited
 
 /-- hooks called by `Process.out()`, i.e. from user code running inside a step; all others are fired by
-`transition_to` / the constructor / `close()` -/
+`transition_to` / the constructor / `close()`, or (`callback_excepted`) by `ProcessCallback.run` — outside the scope -/
 def Hook.isOutput : Hook → Bool
   | .on_output_emitting | .on_output_emitted => true
   | _ => false
@@ -72,6 +79,7 @@ inductive Kind
   | lret     -- after `self.launch(..)` returned
   | xret     -- after `Other(..).execute()` returned
   | csret    -- after `self.call_soon(..)` returned
+  | pcret    -- after `if creator is not None: creator.call_soon(..)` (a callback scheduled on the creator of this process)
   | uret     -- after `self.out(..)` returned
   | iret     -- after the `try: await child.step_until_terminated() except BaseException: ..` statement (child awaited inline)
   | absorbed -- inside that `except BaseException` clause: a BaseException / cancellation came out of the inline child
@@ -79,7 +87,7 @@ inductive Kind
 deriving DecidableEq, Repr, Inhabited
 
 /-- code that is run through `_run_task` of its process: step functions, continuations, scheduled callbacks and what
-they call synchronously (output hooks). Lifecycle hooks are the complement. -/
+they call synchronously (output hooks). Lifecycle hooks (and `callback_excepted`) are the complement. -/
 def Kind.inScope : Kind → Bool
   | .hook h => h.isOutput
   | _ => true
@@ -94,6 +102,8 @@ inductive Act
   | obs | await | out
   | callSoon (cb : Nat) | launch (cls : Nat) | execute (cls : Nat)
   | inline (cls : Nat)     -- `c = Cls(..)`; `try: await c.step_until_terminated()` / `except BaseException:` sample, carry on
+  | callSoonCreator (cb : Nat)   -- `if creator is not None: creator.call_soon(cb)`; creator = the process whose code
+                                 -- launched / executed / inline-awaited the process whose code is running
 deriving DecidableEq, Repr, Inhabited
 
 /-- how a step function ends: `Continue(next)`, `Wait(next)`, plain return, an `Exception`, or a `BaseException`
@@ -102,8 +112,9 @@ inductive End | next | wait | finish | raise | raiseBase
 deriving DecidableEq, Repr, Inhabited
 
 /-- how a `_process_scope` was left: the awaited code returned; an `Interruption` (kill of a waiting process) was raised
-through it; a BaseException raised by user code propagated through it; the task was cancelled while suspended inside it -/
-inductive Exit | returned | interrupted | baseException | cancelled
+through it; a BaseException raised by user code propagated through it; the task was cancelled while suspended inside it;
+a scheduled callback raised an `Exception` through `_run_task` (caught by `ProcessCallback.run`) -/
+inductive Exit | returned | interrupted | baseException | cancelled | exception
 deriving DecidableEq, Repr, Inhabited
 
 structure Step where
@@ -114,6 +125,7 @@ deriving Repr, Inhabited
 structure Scenario where
   classes : List (List Step)
   cbs : List (List Act)
+  cbRaise : List Nat := []   -- the callbacks (indices into `cbs`) that end with `raise Boom()` (an `Exception`)
 deriving Repr, Inhabited
 
 /-! ## Micro operations of a task (what its coroutine still has to do) -/
@@ -133,6 +145,11 @@ inductive Op
       -- reached because the awaited coroutine returned (nothing to do).  `atTry` = the task's stack when the `try` was
       -- entered: a history variable, only copied into the `Join` record
   | throw                          -- `raise BaseBoom()`
+  | callSoonCreator (p : Pid) (cb : Nat)   -- `creator_of_p.call_soon(cb)` from code of `p` (nothing if `p` has no creator)
+  | excepted (p : Pid) (sched : List Pid)
+      -- `p.callback_excepted(..)`, called by `ProcessCallback.run` after the callback raised out of `_run_task`: the sample
+      -- taken by that hook.  `sched` = the stack of the code that called `call_soon`, at that moment (= the stack the task
+      -- started with): a history variable, only copied into the `CbExc` record
 deriving DecidableEq, Repr, Inhabited
 
 def actOps (p : Pid) (inCb : Bool) : Act → List Op
@@ -143,6 +160,7 @@ def actOps (p : Pid) (inCb : Bool) : Act → List Op
   | .launch c => [.launch p c, .obs p .lret]
   | .execute c => [.execute p c, .obs p .xret]
   | .inline c => [.inline p c, .obs p .iret]
+  | .callSoonCreator cb => [.callSoonCreator p cb, .obs p .pcret]
 
 /-- the body of a user function of process `p` -/
 def codeOps (p : Pid) (inCb : Bool) (code : List Act) : List Op :=
@@ -238,6 +256,16 @@ def stepperOps (p : Pid) (steps : List Step) : List Op :=
 /-- the coroutine `ProcessCallback.run` -/
 def cbOps (p : Pid) (code : List Act) : List Op := runTask p (codeOps p true code)
 
+/-- the coroutine `ProcessCallback.run` of a callback that ends with `raise Boom()`: the `with self._process_scope()` of
+`_run_task` is left through the exception, `run` catches it (`except Exception`) and calls `callback_excepted`, which
+samples; `sched` = the stack of the code that called `call_soon` -/
+def cbOpsExc (p : Pid) (sched : List Pid) (code : List Act) : List Op :=
+  .push p :: (codeOps p true code ++ [.pop p .exception, .excepted p sched])
+
+/-- the coroutine of the task that `p.call_soon(cb)` creates, called by code whose stack is `sched` -/
+def cbCode (scn : Scenario) (p : Pid) (sched : List Pid) (cb : Nat) (code : List Act) : List Op :=
+  if scn.cbRaise.contains cb then cbOpsExc p sched code else cbOps p code
+
 /-! ## State -/
 
 structure Task where
@@ -276,6 +304,15 @@ structure Join where
   absorbed : Bool        -- a BaseException / cancellation came out of the child and was absorbed
 deriving Repr, Inhabited, DecidableEq
 
+/-- record of a call of `callback_excepted`: the stack of the code that scheduled the callback (when it called
+`call_soon`) and the stack that the hook finds, after the callback's scope was left through the exception -/
+structure CbExc where
+  tid : Tid
+  pid : Pid              -- the process the callback was scheduled on
+  scheduled : List Pid
+  observed : List Pid
+deriving Repr, Inhabited, DecidableEq
+
 inductive Err
   | scopeAssertion   -- the `assert Process.current() is self` of `_process_scope` failed
   | badRef           -- a class / callback index outside the scenario (input rejected)
@@ -291,11 +328,19 @@ structure State where
   log : List Obs := []           -- newest first
   scopes : List ScopeExit := []  -- newest first
   joins : List Join := []        -- newest first
+  creators : List (Option Pid) := []   -- index = pid: the process whose code instantiated it (none: harness code at top level)
+  cbExcs : List CbExc := []      -- newest first
   err : Option Err := none
 deriving Repr, Inhabited
 
 /-- `Process.current()` for a context whose stack is `s` -/
 def current (s : List Pid) : Option Pid := s.head?
+
+/-- the process whose code (step or callback) launched / executed / inline-awaited `p` -/
+def creatorOf (σ : State) (p : Pid) : Option Pid :=
+  match σ.creators[p]? with
+  | some (some q) => some q
+  | _ => none
 
 def Task.done (T : Task) : Bool := T.code.isEmpty
 
@@ -309,13 +354,14 @@ def logHooks (t : Tid) (q : Pid) (stack : List Pid) (hs : List Hook) (log : List
 
 /-- construct a process of class `cls` from code running in task `t` with stack `stack` and create its stepping task
 (context copy): the common part of `launch` and `execute` -/
-def spawnProcess (σ : State) (t : Tid) (stack : List Pid) (cls : Nat) : Option (State × Tid) :=
+def spawnProcess (σ : State) (t : Tid) (stack : List Pid) (cls : Nat) (creator : Option Pid := none) : Option (State × Tid) :=
   match σ.scn.classes[cls]? with
   | none => none
   | some steps =>
     let q := σ.nextPid
     some ({ σ with
       nextPid := q + 1,
+      creators := σ.creators ++ [creator],
       log := logHooks t q stack constructorHooks σ.log,
       tasks := σ.tasks ++ [{ stack := stack, code := stepperOps q steps }] }, σ.tasks.length)
 
@@ -348,13 +394,13 @@ def exec1 (σ : State) (t : Tid) : State × Ctl :=
         match σ.scn.cbs[cb]? with
         | none => ({ σ with err := some .badRef }, .error)
         | some code =>
-          ({ σ with tasks := σ.tasks.set t { T with code := rest } ++ [{ stack := T.stack, code := cbOps p code }] }, .cont)
-      | .launch _ cls =>
-        match spawnProcess { σ with tasks := σ.tasks.set t { T with code := rest } } t T.stack cls with
+          ({ σ with tasks := σ.tasks.set t { T with code := rest } ++ [{ stack := T.stack, code := cbCode σ.scn p T.stack cb code }] }, .cont)
+      | .launch p cls =>
+        match spawnProcess { σ with tasks := σ.tasks.set t { T with code := rest } } t T.stack cls (some p) with
         | none => ({ σ with err := some .badRef }, .error)
         | some (σ', _) => (σ', .cont)
-      | .execute _ cls =>
-        match spawnProcess σ t T.stack cls with
+      | .execute p cls =>
+        match spawnProcess σ t T.stack cls (some p) with
         | none => ({ σ with err := some .badRef }, .error)
         | some (σ', u) =>
           ({ σ' with tasks := σ'.tasks.set t { T with code := rest, waitingOn := some u },
@@ -367,6 +413,7 @@ def exec1 (σ : State) (t : Tid) : State × Ctl :=
           let q := σ.nextPid
           ({ σ with
               nextPid := q + 1,
+              creators := σ.creators ++ [some p],
               log := logHooks t q T.stack constructorHooks σ.log,
               tasks := σ.tasks.set t { T with code := stepperOps q steps ++ .handler p T.stack false :: rest } }, .cont)
       | .handler p s0 absorbing =>
@@ -374,6 +421,19 @@ def exec1 (σ : State) (t : Tid) : State × Ctl :=
                   joins := ⟨t, p, s0, T.stack, absorbing⟩ :: σ.joins,
                   log := if absorbing then ⟨p, .absorbed, current T.stack, T.stack, t⟩ :: σ.log else σ.log }, .cont)
       | .throw => ({ σ with tasks := σ.tasks.set t { T with code := unwind .baseException 0 rest } }, .cont)
+      | .callSoonCreator p cb =>
+        -- the new task copies the context of THIS code: its stack is this task's stack, whoever the callback belongs to
+        match σ.scn.cbs[cb]? with
+        | none => ({ σ with err := some .badRef }, .error)
+        | some code =>
+          match creatorOf σ p with
+          | none => ({ σ with tasks := σ.tasks.set t { T with code := rest } }, .cont)
+          | some q =>
+            ({ σ with tasks := σ.tasks.set t { T with code := rest } ++ [{ stack := T.stack, code := cbCode σ.scn q T.stack cb code }] }, .cont)
+      | .excepted p s0 =>
+        ({ σ with tasks := σ.tasks.set t { T with code := rest },
+                  cbExcs := ⟨t, p, s0, T.stack⟩ :: σ.cbExcs,
+                  log := ⟨p, .hook .callback_excepted, current T.stack, T.stack, t⟩ :: σ.log }, .cont)
 
 /-- the test `while not f.done()` of the innermost nested `run_until_complete`: if its future is done the call returns
 into the task that made it -/
@@ -494,7 +554,7 @@ def step (σ : State) : Event → State
     match σ.scn.cbs[cb]? with
     | none => { σ with err := some .badRef }
     | some code =>
-      if p < σ.nextPid then { σ with tasks := σ.tasks ++ [{ stack := loopStack σ, code := cbOps p code }] }
+      if p < σ.nextPid then { σ with tasks := σ.tasks ++ [{ stack := loopStack σ, code := cbCode σ.scn p (loopStack σ) cb code }] }
       else { σ with err := some .badRef }
 
 def runEvents (σ : State) (es : List Event) : State := es.foldl step σ
@@ -525,8 +585,10 @@ def Scenario.wf (scn : Scenario) (top : List Nat) : Bool :=
     | .launch c => c < scn.classes.length
     | .execute c => c < scn.classes.length
     | .inline c => c < scn.classes.length
+    | .callSoonCreator cb => cb < scn.cbs.length
     | _ => true
   scn.classes.all (fun steps => stepEndsOk steps && steps.all (fun s => s.code.all okAct))
   && scn.cbs.all (fun c => c.all okAct) && top.all (· < scn.classes.length)
+  && scn.cbRaise.all (· < scn.cbs.length)
 
 end ProcStack
